@@ -54,6 +54,10 @@ type c13DivSite struct {
 	divisor ast.Expr
 	intn    bool
 	lenOf   bool // the operand is len(divisor): len(p) of a slice parameter p, judged at the call site
+	// the operand reads the receiver / a parameter of callee (`len(blb.Servers)` in a helper
+	// method): the division stays where it is (at, divisor belong to callee) and is judged in
+	// node, a caller, with the callee interpreted in place
+	callee *c13Node
 }
 
 func c13Divisors(c *core.Ctx, g *c13Graph, sf *c13SpecFields) {
@@ -64,18 +68,36 @@ func c13Divisors(c *core.Ctx, g *c13Graph, sf *c13SpecFields) {
 	}
 	groups := map[string]*group{}
 	perKey := map[string]int{}
+	countedAt := map[ast.Node]bool{}
 	nSites := 0
 	for _, n := range g.reachedFuncs() {
 		for _, s0 := range c13DivSites(n) {
 			nSites++
 			s0.node = n
 			for _, s := range c13EffectiveSites(g, s0, 0) {
+				if s.callee != nil {
+					// judged in the callers only if that is needed: not when the operand is reviewed
+					// by role or proven where it stands
+					k := "divisor "
+					if s0.intn {
+						k = "Intn argument "
+					}
+					if _, reviewed := c13DivTable[k+c13DivRole(n, sf, s0.divisor, true)]; reviewed {
+						s = s0
+					} else if ok, _ := c13ProveNonZero(c, n, s0); ok {
+						s = s0
+					}
+				}
 				m := s.node
 				kind := "divisor "
 				if s.intn {
 					kind = "Intn argument "
 				}
-				role, full := c13DivRole(m, sf, s.divisor, false), c13DivRole(m, sf, s.divisor, true)
+				rn := m
+				if s.callee != nil {
+					rn = s.callee
+				}
+				role, full := c13DivRole(rn, sf, s.divisor, false), c13DivRole(rn, sf, s.divisor, true)
 				if s.lenOf {
 					role, full = "len("+role+")", "len("+full+")"
 				}
@@ -85,7 +107,15 @@ func c13Divisors(c *core.Ctx, g *c13Graph, sf *c13SpecFields) {
 					gr = &group{node: m, key: kind + full}
 					groups[cons] = gr
 				}
-				gr.sites = append(gr.sites, s)
+				dup := false
+				for _, have := range gr.sites {
+					if have.at == s.at && have.node == s.node {
+						dup = true
+					}
+				}
+				if !dup {
+					gr.sites = append(gr.sites, s)
+				}
 			}
 		}
 	}
@@ -111,7 +141,7 @@ func c13Divisors(c *core.Ctx, g *c13Graph, sf *c13SpecFields) {
 			continue
 		}
 		// 2. spec field with schema minimum >= 1
-		if v := c13FieldOf(n, c13Core(n, gr.sites[0].divisor)); v != nil && sf.isSpec(v) && sf.schemaMinAtLeast(v, 1) && len(gr.sites) == 1 && !gr.sites[0].lenOf {
+		if v := c13FieldOf(n, c13Core(n, gr.sites[0].divisor)); gr.sites[0].callee == nil && v != nil && sf.isSpec(v) && sf.schemaMinAtLeast(v, 1) && len(gr.sites) == 1 && !gr.sites[0].lenOf {
 			c.Discharge("R-C13-3", cons, pos(c, at), "spec field "+sf.name(v)+" has schema minimum >= 1")
 			continue
 		}
@@ -125,7 +155,21 @@ func c13Divisors(c *core.Ctx, g *c13Graph, sf *c13SpecFields) {
 		}
 		// 4. reviewed table (by operand)
 		e, ok := c13DivTable[gr.key]
-		perKey[gr.key] += len(gr.sites)
+		if !ok {
+			// the counter of a circuit breaker window under another name (fields moved into a
+			// `counters` struct): same review as `window.total`
+			if alt, is := c13WindowTotalRole(c, g, n, gr.sites); is {
+				gr.key = alt
+				e, ok = c13DivTable[alt]
+			}
+		}
+		// distinct division sites (a site judged in several callers counts once)
+		for _, st := range gr.sites {
+			if !countedAt[st.at] {
+				countedAt[st.at] = true
+				perKey[gr.key]++
+			}
+		}
 		switch {
 		case !ok:
 			c.Violate("R-C13-3", cons, pos(c, at),
@@ -215,6 +259,23 @@ func c13EffectiveSites(g *c13Graph, s c13DivSite, depth int) []c13DivSite {
 		core, lenOf = c13Core(n, arg), true
 	}
 	id, ok := core.(*ast.Ident)
+	if !ok && depth < 2 && s.callee == nil {
+		// a path on the receiver or on a parameter of a method / function that is called from the
+		// same package: judged in those callers
+		if sel, isSel := core.(*ast.SelectorExpr); isSel && n.decl != nil {
+			if root := c13RootIdent(sel); root != nil && c13IsRecvOrParam(n, root) {
+				var out []c13DivSite
+				for _, cs := range g.callSites(n) {
+					if cs.caller.pkg == n.pkg && cs.caller.decl != nil && cs.caller != n {
+						out = append(out, c13DivSite{node: cs.caller, at: s.at, divisor: s.divisor, intn: s.intn, lenOf: s.lenOf, callee: n})
+					}
+				}
+				if len(out) > 0 && len(out) == len(g.callSites(n)) {
+					return out
+				}
+			}
+		}
+	}
 	if !ok || depth >= 2 {
 		return []c13DivSite{s}
 	}
@@ -478,11 +539,17 @@ func c13ProveNonZero(c *core.Ctx, n *c13Node, s c13DivSite) (bool, *flow.State) 
 		return false, nil
 	}
 	f := c13Innermost(top, s.at)
-	chain := c13CoreChain(n, s.divisor)
+	en, ef := n, f // where the expression lives
+	if s.callee != nil {
+		en = s.callee
+		ef = c13Innermost(s.callee.flowFunc(), s.at)
+		f = top
+	}
+	chain := c13CoreChain(en, s.divisor)
 	core := chain[len(chain)-1]
-	names := c13AliasNames(n, f, chain, s.lenOf)
-	names = c13ParamVocab(f, names)
-	_, isLen := c13IsLen(n, core)
+	names := c13AliasNames(en, ef, chain, s.lenOf)
+	names = c13ParamVocab(ef, names)
+	_, isLen := c13IsLen(en, core)
 	isLen = isLen || s.lenOf
 	unsigned := isLen
 	if tv, ok := f.Info.Types[core]; ok && tv.Type != nil {
@@ -942,4 +1009,131 @@ func c13SizedBufferReason(c *core.Ctx, g *c13Graph, sf *c13SpecFields, n *c13Nod
 		}
 	}
 	return false, "", false
+}
+
+// c13IsRecvOrParam: the identifier is the receiver or a parameter of n's declaration and is
+// never assigned in its body.
+func c13IsRecvOrParam(n *c13Node, id *ast.Ident) bool {
+	if c13ParamIndex(n, id) >= 0 {
+		return true
+	}
+	if n.decl == nil || n.decl.Recv == nil || len(n.decl.Recv.List) != 1 || len(n.decl.Recv.List[0].Names) != 1 {
+		return false
+	}
+	info := n.pkg.TypesInfo
+	obj := info.Defs[n.decl.Recv.List[0].Names[0]]
+	if obj == nil || info.Uses[id] != obj {
+		return false
+	}
+	assigned := false
+	ast.Inspect(n.body, func(x ast.Node) bool {
+		if as, ok := x.(*ast.AssignStmt); ok {
+			for _, l := range as.Lhs {
+				if lid, ok := ast.Unparen(l).(*ast.Ident); ok && info.Uses[lid] == obj {
+					assigned = true
+				}
+			}
+		}
+		return true
+	})
+	return !assigned
+}
+
+// c13WindowTotalRole recognises "the number of results a circuit breaker window holds" by role,
+// whatever the field is called and wherever it lives: an unsigned field that the Push method of
+// every Window implementation increments (in its same-package reach), divided by in code that is
+// only reached — through same-package calls — from the FailureRate / SlowRate methods of the
+// Window implementations. Such a site is covered by the reviewed reason "a result is pushed
+// before any rate is computed" (checked at the call sites of those methods).
+func c13WindowTotalRole(c *core.Ctx, g *c13Graph, n *c13Node, sites []c13DivSite) (string, bool) {
+	if relPkg(n.pkg.PkgPath) != c13CB {
+		return "", false
+	}
+	winT := namedType(c, c13CB, "Window")
+	if winT == nil {
+		return "", false
+	}
+	iface, _ := winT.Underlying().(*types.Interface)
+	if iface == nil {
+		return "", false
+	}
+	var pushes []*c13Node
+	entry := map[*c13Node]bool{}
+	for _, nt := range g.named {
+		if !types.Implements(types.NewPointer(nt), iface) {
+			continue
+		}
+		if p := g.method(nt, "Push"); p != nil {
+			pushes = append(pushes, p)
+		}
+		for _, m := range []string{"FailureRate", "SlowRate"} {
+			if r := g.method(nt, m); r != nil {
+				entry[r] = true
+			}
+		}
+	}
+	if len(pushes) == 0 || len(entry) == 0 {
+		return "", false
+	}
+	alt := ""
+	for _, s := range sites {
+		if s.intn || s.lenOf {
+			return "", false
+		}
+		sn := n
+		if s.callee != nil {
+			sn = s.callee
+		}
+		field := c13FieldOf(sn, c13Core(sn, s.divisor))
+		if field == nil {
+			return "", false
+		}
+		if b, ok := field.Type().Underlying().(*types.Basic); !ok || b.Info()&types.IsUnsigned == 0 {
+			return "", false
+		}
+		// only reached from the rate methods
+		var up func(m *c13Node, depth int) bool
+		up = func(m *c13Node, depth int) bool {
+			if entry[m] {
+				return true
+			}
+			callers := g.callSites(m)
+			if len(callers) == 0 || depth > 3 {
+				return false
+			}
+			for _, cs := range callers {
+				if cs.caller.pkg != m.pkg || !up(cs.caller, depth+1) {
+					return false
+				}
+			}
+			return true
+		}
+		if !up(sn, 0) {
+			return "", false
+		}
+		// incremented by every Push
+		for _, p := range pushes {
+			inc := false
+			if p.decl == nil {
+				return "", false
+			}
+			for _, h := range reach(flow.NewFunc(p.pkg, p.decl), 3) {
+				ast.Inspect(h.Body, func(x ast.Node) bool {
+					if st, ok := x.(*ast.IncDecStmt); ok && st.Tok == token.INC {
+						if sel, ok := ast.Unparen(st.X).(*ast.SelectorExpr); ok {
+							if sl := h.Info.Selections[sel]; sl != nil && sl.Obj() == types.Object(field) {
+								inc = true
+							}
+						}
+					}
+					return true
+				})
+			}
+			if !inc {
+				return "", false
+			}
+		}
+		alt = "divisor circuitbreaker.CountBasedWindow.total"
+	}
+	return alt, alt != ""
 }
